@@ -334,6 +334,19 @@ func HandedIPs(p *corev1.Pod) [][4]uint32 {
 	return out
 }
 
+// PodRanges: the pod's requested range lists as numbers (nil when it requests none).
+func PodRanges(p *corev1.Pod) [][][2]uint32 {
+	var out [][][2]uint32
+	for _, l := range podRanges(p) {
+		var o [][2]uint32
+		for _, r := range l {
+			o = append(o, [2]uint32{nets.IPToInt(r.First), nets.IPToInt(r.Last)})
+		}
+		out = append(out, o)
+	}
+	return out
+}
+
 func podRanges(p *corev1.Pod) [][]nets.IPRange {
 	if p == nil || p.Annotations == nil {
 		return nil
